@@ -9,7 +9,11 @@ import (
 // TestDbg prints the SSA exactly as the rules see it (x/tools v0.29.0 initialises composite literals in
 // place, unlike the system ssadump): DBG=pkgpath.Func[,pkgpath.Func] go test -run TestDbg -v .
 func TestDbg(t *testing.T) {
-	p, err := Load("/repo", "")
+	repo := os.Getenv("DBGREPO")
+	if repo == "" {
+		repo = "/repo"
+	}
+	p, err := Load(repo, "")
 	if err != nil {
 		t.Fatal(err)
 	}
